@@ -71,7 +71,7 @@ func (c *Connector) Connect(ctx context.Context) (driver.Conn, error) {
 	s.nextConn++
 	cn := &Conn{srv: s, id: s.nextConn, db: c.cfg.DBName, cfg: c.cfg, noHook: c.drv.NoHook}
 	s.conns[cn.id] = cn
-	s.journal(JEntry{Seq: s.logf("DB c%d CONNECT db=%s", cn.id, cn.db), Conn: cn.id, Kind: "CONNECT"})
+	s.journal(JEntry{Seq: s.logq("DB c%d CONNECT db=%s", cn.id, cn.db), Conn: cn.id, Kind: "CONNECT"})
 	return cn, nil
 }
 
@@ -203,12 +203,38 @@ func (c *Conn) kill() {
 	c.closed = true
 }
 
+var kvTextRe = regexp.MustCompile(`^[A-Za-z_]+=[^&=]*(&[A-Za-z_]+=[^&=]*)+$`)
+
+func canonKV(a interface{}) interface{} {
+	var txt string
+	switch x := a.(type) {
+	case []byte:
+		txt = string(x)
+	case string:
+		txt = x
+	default:
+		return a
+	}
+	if len(txt) > 256 || !kvTextRe.MatchString(txt) {
+		return a
+	}
+	parts := strings.Split(txt, "&")
+	sort.Strings(parts)
+	if _, isBytes := a.([]byte); isBytes {
+		return []byte(strings.Join(parts, "&"))
+	}
+	return strings.Join(parts, "&")
+}
+
 func fmtArgs(args []interface{}) string {
 	if len(args) == 0 {
 		return ""
 	}
 	parts := make([]string, len(args))
 	for i, a := range args {
+		// a k=v&k=v text written from a Go map (the undo-log context) comes in
+		// random key order: log it in canonical order so that equal runs hash equal
+		a = canonKV(a)
 		s := FormatVal(normArg(a))
 		if len(s) > 80 {
 			s = s[:77] + "..."
@@ -291,7 +317,9 @@ func (c *Conn) run(kind, sqlText string, args []interface{}, binary bool) (*resu
 	} else {
 		je.Affected, je.LastID, je.NRows = res.affected, res.lastID, len(res.rows)
 		je.StmtWrites = res.writes
-		if res.isQuery {
+		if res.isQuery && je.Class == "meta" {
+			je.Seq = s.logq("DB c%d %s %s%s -> %d row(s)", c.id, kind, oneLine(sqlText), fmtArgs(args), len(res.rows))
+		} else if res.isQuery {
 			je.Seq = s.logf("DB c%d %s %s%s -> %d row(s)", c.id, kind, oneLine(sqlText), fmtArgs(args), len(res.rows))
 		} else {
 			je.Seq = s.logf("DB c%d %s %s%s -> affected %d", c.id, kind, oneLine(sqlText), fmtArgs(args), res.affected)
@@ -952,7 +980,7 @@ func (c *Conn) Close() error {
 	defer c.srv.mu.Unlock()
 	if !c.closed {
 		c.kill()
-		c.srv.journal(JEntry{Seq: c.srv.logf("DB c%d CLOSE", c.id), Conn: c.id, Kind: "CLOSE"})
+		c.srv.journal(JEntry{Seq: c.srv.logq("DB c%d CLOSE", c.id), Conn: c.id, Kind: "CLOSE"})
 	}
 	return nil
 }
@@ -1019,7 +1047,7 @@ func (c *Conn) ResetSession(ctx context.Context) error {
 		return driver.ErrBadConn
 	}
 	in := c.txn != nil && c.txn.explicit
-	c.srv.journal(JEntry{Seq: c.srv.logf("DB c%d RESET (handed out by the pool) in_txn=%v", c.id, in), Conn: c.id, Kind: "RESET", InTxn: in})
+	c.srv.journal(JEntry{Seq: c.srv.logq("DB c%d RESET (handed out by the pool) in_txn=%v", c.id, in), Conn: c.id, Kind: "RESET", InTxn: in})
 	return nil
 }
 
@@ -1028,7 +1056,7 @@ func (c *Conn) IsValid() bool {
 	c.srv.mu.Lock()
 	defer c.srv.mu.Unlock()
 	in := c.txn != nil && c.txn.explicit
-	c.srv.journal(JEntry{Seq: c.srv.logf("DB c%d VALID (returned to the pool) in_txn=%v", c.id, in), Conn: c.id, Kind: "VALID", InTxn: in})
+	c.srv.journal(JEntry{Seq: c.srv.logq("DB c%d VALID (returned to the pool) in_txn=%v", c.id, in), Conn: c.id, Kind: "VALID", InTxn: in})
 	return !c.closed
 }
 
